@@ -24,7 +24,7 @@ From Coq Require Import List NArith Bool Arith Permutation SetoidList Relations.
 From SK Require Import lib.LGraph lib.Mono model.C06_Model lib.C06_Spec
   proof.C06_All proof.C06_Comp proof.C06_Comps proof.C06_CompSem proof.C06_CompNoDup proof.C06_Prefilter proof.C06_Table proof.C06_Api proof.C06_Main
   model.C06_Attrs lib.C06_SelSpec proof.C06_Attrs proof.C06_AttrsSpec proof.C06_AttrsEx
-  model.C06_Trace proof.C06_Trace proof.C06_TraceEx proof.C06_AttrsComp model.C06_Hist proof.C06_Hist lib.C06_TraceSpec proof.C06_TracePer proof.C06_HistEdits proof.C06_Iso proof.C06_IsoCount proof.C06_AttrsUnused lib.C06_HistSpec proof.C06_HistFrame.
+  model.C06_Trace proof.C06_Trace proof.C06_TraceEx proof.C06_AttrsComp model.C06_Hist proof.C06_Hist lib.C06_TraceSpec proof.C06_TracePer proof.C06_HistEdits proof.C06_Iso proof.C06_IsoCount proof.C06_AttrsUnused lib.C06_HistSpec proof.C06_HistFrame proof.C06_TraceCover proof.C06_HistFrameE.
 Import ListNotations.
 
 (** ** 0. What the specification predicates say, written out *)
@@ -716,11 +716,73 @@ Print Assumptions C06_hist_edit_never_seen.
 
 (** the first entry of every compared history observable is the flag below; when it is true (the harness
     compares it with the constant true) the dictionaries of the two initial objects and of every created node
-    have one entry per key - the well-formedness premises of the two theorems above *)
+    have one entry per key - the well-formedness premises of the theorems above and of section 17 *)
 Theorem C06_hist_premise_monitor : forall (H P : rgraph) (steps : list hstep),
   state_okb H && state_okb P && forallb step_okb steps = true ->
-  Forall (fun p : N * rnlab => NoDup (map fst (fst (snd p)))) (gnodes H) /\
-  Forall (fun p : N * rnlab => NoDup (map fst (fst (snd p)))) (gnodes P) /\
-  Forall (fun s => match s with HEdit _ (EAddNode _ l) => NoDup (map fst (fst l)) | _ => True end) steps.
+  (Forall (fun p : N * rnlab => NoDup (map fst (fst (snd p)))) (gnodes H) /\
+   Forall (fun e : N * N * rattrs => NoDup (map fst (snd e))) (gedges H)) /\
+  (Forall (fun p : N * rnlab => NoDup (map fst (fst (snd p)))) (gnodes P) /\
+   Forall (fun e : N * N * rattrs => NoDup (map fst (snd e))) (gedges P)) /\
+  Forall (fun s => match s with
+                   | HEdit _ (EAddNode _ l) => NoDup (map fst (fst l))
+                   | HEdit _ (EAddEdge _ _ d) => NoDup (map fst d)
+                   | _ => True
+                   end) steps.
 Proof. exact hist_monitor. Qed.
 Print Assumptions C06_hist_premise_monitor.
+
+(** ** 16. The calls of the trace are exactly of the two kinds the premise [oracle_ok] constrains - the
+    whole host against the whole pattern, or a pattern component against a host component that is large
+    enough - so under [oracle_ok] every enumeration the search pulls from meets the VF2 contract, and the
+    premise asks for nothing the code does not call *)
+Theorem C06_trace_calls_covered : forall (enum : list N -> list N -> list mapping) (c : cfg) (H P : graph)
+                                         (hn pn : list N) (k : N),
+  In (hn, pn, k) (trace enum c H P) ->
+  (hn = node_ids H /\ pn = node_ids P) \/
+  (In hn (comps H) /\ In pn (comps P) /\ length pn <= length hn).
+Proof. exact (fun enum c H P hn pn k Hin => trace_kind enum c H P (hn, pn, k) Hin). Qed.
+Print Assumptions C06_trace_calls_covered.
+
+Theorem C06_trace_calls_under_contract : forall (enum : list N -> list N -> list mapping) (c : cfg) (H P : graph)
+                                                (hn pn : list N) (k : N),
+  oracle_ok enum H P -> In (hn, pn, k) (trace enum c H P) -> vf2_contract enum H P hn pn.
+Proof. exact (fun enum c H P hn pn k => trace_calls_under_contract enum c H P hn pn k). Qed.
+Print Assumptions C06_trace_calls_under_contract.
+
+(** ** 17. The same for EDGE-attribute names: states that differ at most in the values stored under the
+    edge-attribute name [k] (same nodes; edges with the same end points in the same order, one entry per key,
+    the same [dict.get] for every other name) cannot be told apart by searches whose [edge_attrs] do not
+    contain [k], whatever edits are interleaved *)
+Theorem C06_hist_noninterference_edge : forall (k : N) (steps : list hstep) (H1 H2 P1 P2 : rgraph),
+  (gnodes H1 = gnodes H2 /\
+   Forall2 (fun e1 e2 : N * N * rattrs =>
+              fst (fst e1) = fst (fst e2) /\ snd (fst e1) = snd (fst e2) /\
+              NoDup (map fst (snd e1)) /\ NoDup (map fst (snd e2)) /\
+              forall k', k' <> k -> aget k' (snd e1) = aget k' (snd e2)) (gedges H1) (gedges H2)) ->
+  (gnodes P1 = gnodes P2 /\
+   Forall2 (fun e1 e2 : N * N * rattrs =>
+              fst (fst e1) = fst (fst e2) /\ snd (fst e1) = snd (fst e2) /\
+              NoDup (map fst (snd e1)) /\ NoDup (map fst (snd e2)) /\
+              forall k', k' <> k -> aget k' (snd e1) = aget k' (snd e2)) (gedges P1) (gedges P2)) ->
+  Forall (fun s => match s with
+                   | HEdit _ (EAddEdge _ _ d) => NoDup (map fst d)
+                   | HEdit _ _ => True
+                   | HSearch _ _ ea _ => ~ In k ea
+                   | HMutateResult => True
+                   end) steps ->
+  run_hist H1 P1 steps = run_hist H2 P2 steps.
+Proof. exact hist_noninterference_edge. Qed.
+Print Assumptions C06_hist_noninterference_edge.
+
+Theorem C06_hist_edge_edit_never_seen : forall (k a b v : N) (host_side : bool) (H P : rgraph) (steps : list hstep),
+  Forall (fun e : N * N * rattrs => NoDup (map fst (snd e))) (gedges H) ->
+  Forall (fun e : N * N * rattrs => NoDup (map fst (snd e))) (gedges P) ->
+  Forall (fun s => match s with
+                   | HEdit _ (EAddEdge _ _ d) => NoDup (map fst d)
+                   | HEdit _ _ => True
+                   | HSearch _ _ ea _ => ~ In k ea
+                   | HMutateResult => True
+                   end) steps ->
+  run_hist H P (HEdit host_side (ESetEdgeAttr a b k v) :: steps) = run_hist H P steps.
+Proof. exact hist_edge_edit_never_seen. Qed.
+Print Assumptions C06_hist_edge_edit_never_seen.
